@@ -31,7 +31,7 @@ def time_pool(boundary_heavy=True, half_hours=False, before_2037=False):
     days = st.sampled_from(pool).map(lambda d: model.date_to_unix(d) // 86400)
     anyday = st.integers(0, 24000 if before_2037 else 47481)  # 1970-01-01 .. 2035 / 2099-12-31
     day = st.one_of(days, days, anyday) if boundary_heavy else anyday
-    hours = HOURS + ([0.5, 13.5, 22.25] if half_hours else [])
+    hours = HOURS + ([0.5, 13.5, 22.25, 6.25, 12.75, 23.5] if half_hours else [])
     return st.tuples(day, st.sampled_from(hours)).map(lambda dh: int(dh[0] * 86400 + dh[1] * 3600))
 
 
